@@ -64,3 +64,12 @@ static void reload_after_failure(hwloc_topology_t t, unsigned variant, battery_f
     (void)dump_topology(t);
   }
 }
+
+// The importer validates a few things object by object before inserting (XML anchors: "type vs parent ... cache attrs"): a normal or I/O object
+// below a memory object, a Machine that is not the root, cache attributes that contradict the cache type.  A document that loads although
+// it breaks one of these is not the cross-object inconsistency of finding F-C06-h: the importer's own check is gone.
+static const char *importer_validated_rule(const WFError &e) {
+  static const char *rules[] = {"memory obj with io children", "memory obj with normal children", "Machine not root", "cache attr mismatch", "icache attr mismatch"};
+  for (auto &m : e.msgs) for (const char *r : rules) if (m.compare(0, strlen(r), r) == 0) return r;
+  return NULL;
+}
